@@ -23,19 +23,78 @@ def t_of(ev):
     return ev.t
 
 
+# ---- known findings of the history class: predicates over the trace of the violating path.
+# A violation is attributed to a finding only if (1) the finding is listed as open for the property being
+# checked (VERIF_KNOWN, set by the runner from known_findings.json), (2) the failed clause belongs to one of the
+# finding's properties, (3) the trace satisfies the predicate.  Everything else is reported.
+def _kf2_cancelled_while_cancelling(run, what):
+    """KF-2: a nested scheduler is cancelled by its enclosing scheduler while it is waiting for jobs that it
+    has itself just cancelled (it is already in an exit path, or already handling a first cancellation)"""
+    for s in run.scheds():
+        if s.parent is None:
+            continue
+        names = {m.name: m for m in s.children}
+        for c in run.evs(s.name, "tcancel"):
+            for ev in run.events:
+                if ev.seq >= c.seq:
+                    break
+                if ev.kind == "tcancel" and ev.who in names:
+                    m = names[ev.who]
+                    o = run.over(m)
+                    if o is None or o.seq > c.seq:
+                        return True
+    return False
+
+
+KNOWN_PREDICATES = {
+    "KF-2": (("C11:", "C13:", "C05:", "C08:", "C09:"), _kf2_cancelled_while_cancelling),
+}
+
+
+def _active_known():
+    import os
+    return [k for k in os.environ.get("VERIF_KNOWN", "").split(",") if k]
+
+
+def known_class(run, what):
+    if run is None:
+        return None
+    for kid in _active_known():
+        ent = KNOWN_PREDICATES.get(kid)
+        if ent is None:
+            continue
+        prefixes, pred = ent
+        if what.startswith(prefixes) and pred(run, what):
+            return kid
+    return None
+
+
 def fail(api, what, run=None, extra=None):
     detail = {"trace": run.dump()} if run is not None else {}
     if extra:
         detail["info"] = extra
+    kid = known_class(run, what)
+    if kid is not None:
+        detail["known_class"] = kid
+        if api.mode == "sym":
+            from symx import PathAbort
+            api.known(kid)
+            raise PathAbort("known:" + kid)
     raise Violation(what, detail)
 
 
 def prove(api, cond, what, run, extra=None):
-    detail = None
     try:
         api.prove(cond, what)
     except Violation as v:
         v.detail = {"trace": run.dump(), "info": extra}
+        kid = known_class(run, what)
+        if kid is not None:
+            v.detail["known_class"] = kid
+            if api.mode == "sym":
+                api.known(kid)
+                api.assume(cond)        # go on with the part of the region where this clause holds
+                return
         raise
 
 
@@ -751,7 +810,7 @@ def c13_shutdown(api, run):
                 elif ev.kind in (("run_end", "run_exc", "run_cancel") if m.is_sched
                                  else ("end", "raise", "cancel_done")):
                     running.discard(m.name)
-                elif ev.kind in ("sd_begin", "ssd_begin") and running:
+                elif ev.kind in ("sd_begin", "ssd_begin") and running and m.name not in running:
                     fail(api, "C13: %s received co_shutdown() while %s of the same scheduler %s is still running"
                          % (m, sorted(running), s), run)
         # bounded phase
